@@ -718,10 +718,15 @@ def _list1d(lst):
     return o
 
 
+def _count(v):
+    """a truth value used as a number (sum / cumsum of a mask): 0 or 1, decided by a fork when symbolic"""
+    return (1 if bool(v) else 0) if isinstance(v, (B, bool, _np.bool_)) else v
+
+
 def _psum(l):
     r = 0
     for v in l:
-        r = r + v
+        r = r + _count(v)
     return r if l else Fr(0)
 
 
@@ -871,7 +876,7 @@ def median(a):
 def cumsum(a, axis=None, out=None):
     res, r = [], 0
     for v in _flat(a):
-        r = r + v
+        r = r + _count(v)
         res.append(r)
     arr = _norm(_list1d(res))
     if out is not None:
@@ -1153,6 +1158,13 @@ def make_numpy():
     return m
 
 
+def _copysign(a, b):
+    if isinstance(b, S) or isinstance(a, S):
+        mag = core.sabs(a) if isinstance(a, S) else abs(to_fr(a))
+        return core.ite(b >= 0, mag, -mag) if isinstance(b, S) else (mag if to_fr(b) >= 0 else -mag)
+    return abs(to_fr(a)) if to_fr(b) >= 0 else -abs(to_fr(a))
+
+
 def make_math():
     m = types.ModuleType('math(symnp)')
 
@@ -1192,6 +1204,15 @@ def make_math():
     m.isfinite = lambda v: True
     m.fsum = lambda seq: builtins.sum(list(seq), Fr(0))
     m.pow = lambda a, b: core.spow(a if isinstance(a, S) else to_fr(a), b)
+    def mprod(it, start=1):
+        r = start
+        for v in it:
+            r = r * v
+        return r
+
+    m.prod = mprod
+    m.dist = lambda p, q: msqrt(builtins.sum(((a - b) * (a - b) for a, b in zip(p, q)), Fr(0)))
+    m.copysign = lambda a, b: _copysign(a, b)
     m.fabs = fabs
     m.sqrt = msqrt
     m.ceil = core.sceil
